@@ -54,9 +54,14 @@ type c10Message struct {
 
 // capture lets k real sender instances tell messages to D (address 0) and labels every fragment.
 func c10Capture(g *rng.R, layer c10Layer, innerMTU, k, perSender int, sizes []int) (*wireNet, []c10Message, []c10Frag, int) {
+	return c10CaptureN(g, layer, innerMTU, k, perSender, sizes, 14, false)
+}
+
+// c10CaptureN: as c10Capture with the outer MTU given in parts; inOrder takes the sizes in order instead of drawing them.
+func c10CaptureN(g *rng.R, layer c10Layer, innerMTU, k, perSender int, sizes []int, outerParts int, inOrder bool) (*wireNet, []c10Message, []c10Frag, int) {
 	net := newWireNet(innerMTU)
 	part := layer.part(innerMTU)
-	outer := 14 * part
+	outer := outerParts * part
 	var msgs []c10Message
 	var frags []c10Frag
 	ctx := context.Background()
@@ -65,6 +70,9 @@ func c10Capture(g *rng.R, layer c10Layer, innerMTU, k, perSender int, sizes []in
 		sw := layer.mk(node, outer)
 		for j := 0; j < perSender; j++ {
 			L := sizes[(s*7+j*3+g.Intn(len(sizes)))%len(sizes)]
+			if inOrder {
+				L = sizes[j%len(sizes)]
+			}
 			if L > outer {
 				L = outer
 			}
@@ -236,7 +244,7 @@ func interleavings(a, b []int) [][]int {
 }
 
 func runC10(r *ev.Run) {
-	r.Rule = "the harness is the inner transport: 2-4 real sender instances (fragswarm, mbapp) tell messages of 1, 2, 3 and many fragments (exact multiples of the fragment size +-1); every captured fragment is labelled; a fresh real destination instance per schedule is fed an interleaving of the fragments of several messages and sources: enumerated (two messages of <=3 fragments: all interleavings x drop-one x duplicate-one) and random (all messages shuffled with loss and duplication), with seeded delays at the reassembly hook points; every delivered payload must equal one sent payload of the sender Src names, and a message with a never-fed fragment must not be delivered. Also multi-part ask responses under reordering, and a request and a reply from the same peer sharing one group id. non-trivial = fragments of >=2 messages interleaved and >=1 message completed; distinct = interleaving-shape hash"
+	r.Rule = "the harness is the inner transport: 2-4 real sender instances (fragswarm, mbapp) tell messages of 1, 2, 3 and many fragments (exact multiples of the fragment size +-1); every captured fragment is labelled; a fresh real destination instance per schedule is fed an interleaving of the fragments of several messages and sources: enumerated (two messages of <=3 fragments: all interleavings x drop-one x duplicate-one) and random (all messages shuffled with loss and duplication), with seeded delays at the reassembly hook points; every delivered payload must equal one sent payload of the sender Src names, and a message with a never-fed fragment must not be delivered. Part-count sweep: one message per part count 1..33, fed whole (in order, reversed), with one fragment missing, and one fragment alone. Also multi-part ask responses under reordering, and a request and a reply from the same peer sharing one group id. non-trivial = fragments of >=2 messages interleaved and >=1 message completed; distinct = interleaving-shape hash"
 	g := rng.New(r.Seed, "C10", fmt.Sprint(r.Batch))
 	idx := 0
 	for _, layer := range c10Layers() {
@@ -334,6 +342,7 @@ func runC10(r *ev.Run) {
 				}
 			}
 			verifhook.DisarmAll()
+			c10PartCountSweep(r, cg, caseID, layer, innerMTU)
 			if layer.name == "mbapp" {
 				c10AskReplies(r, cg, caseID, innerMTU)
 			}
@@ -346,6 +355,61 @@ func runC10(r *ev.Run) {
 				r.Sample(map[string]any{"layer": layer.name, "inner_mtu": innerMTU, "senders": k, "messages": ml, "enumerated_schedules": nEnum, "random_schedules": nRand})
 			}
 		}
+	}
+}
+
+// c10PartCountSweep: one message for every part count 1..33 (exact multiple of the fragment size, or one byte less); each is
+// fed to a fresh destination whole (in order, reversed), with one fragment missing (first, middle, last: nothing may be
+// delivered) and one fragment at a time alone.
+func c10PartCountSweep(r *ev.Run, g *rng.R, caseID string, layer c10Layer, innerMTU int) {
+	part := layer.part(innerMTU)
+	const maxParts = 33
+	var sizes []int
+	for n := 1; n <= maxParts; n++ {
+		L := n * part
+		if g.Bool() && L > 1 {
+			L--
+		}
+		sizes = append(sizes, L)
+	}
+	net, msgs, frags, outer := c10CaptureN(g, layer, innerMTU, 1, maxParts, sizes, maxParts+1, true)
+	for mi, m := range msgs {
+		n := len(m.Frags)
+		if n == 0 {
+			continue
+		}
+		var schedules [][]int
+		fwd := append([]int{}, m.Frags...)
+		rev := make([]int, n)
+		for i := range fwd {
+			rev[n-1-i] = fwd[i]
+		}
+		schedules = append(schedules, fwd, rev)
+		if n >= 2 {
+			for _, miss := range []int{0, n / 2, n - 1} {
+				var o []int
+				for i, fi := range fwd {
+					if i != miss {
+						o = append(o, fi)
+					}
+				}
+				schedules = append(schedules, o)
+			}
+			for _, only := range []int{0, n / 2, n - 1} {
+				schedules = append(schedules, []int{fwd[only]})
+			}
+		}
+		for si, order := range schedules {
+			r.Eval(1)
+			dels := c10Feed(net, layer, outer, frags, order)
+			if c10Check(r, caseID+"-sweep", layer, msgs, frags, order, dels, innerMTU) > 0 && si < 2 {
+				r.NonTrivial(fmt.Sprintf("%s/%d/sweep/parts=%d", layer.name, innerMTU, n))
+			}
+			if si < 2 && len(dels) == 0 {
+				r.Count("sweep_whole_message_not_delivered", 1) // a loss, not judged here
+			}
+		}
+		_ = mi
 	}
 }
 
